@@ -186,6 +186,8 @@ pub struct Stage {
     pub last_painted: std::collections::BTreeMap<usize, Vec<String>>,
     /// renders (writes of the observation key) of all bars before the current call
     pub renders0: usize,
+    /// a line with a double-width character that wraps (or may wrap) was seen: KF-WIDE-WRAP
+    pub wide_wrap: bool,
     pub last_frame_cut: bool,
 }
 
@@ -266,6 +268,7 @@ impl Stage {
             shown_override: None,
             last_painted: Default::default(),
             renders0: 0,
+            wide_wrap: false,
             last_frame_cut: false,
         }
     }
@@ -444,10 +447,10 @@ impl Stage {
                 return res;
             }
             if t.lines().any(|l| has_wide(l) && text_width(l) + 12 > self.w) {
-                // double-width characters only in lines that cannot wrap (DESIGN §5 C01)
-                self.out_of_scope = Some("wide character in a line that may wrap".into());
-                res.skipped = true;
-                return res;
+                // a double-width character in a line that may wrap: known finding KF-WIDE-WRAP
+                // (rows are counted as ceil(columns / W); a terminal wraps a 2-cell character
+                // early when only one cell is left)
+                self.wide_wrap = true;
             }
         }
         // ---- operations that do not address an existing bar
@@ -1215,9 +1218,7 @@ impl Stage {
         if self.items.iter().any(|i| matches!(i, Item::Log(l) if wide_wrap(l)))
             || self.bars.iter().any(|b| b.abs.submitted.as_ref().map_or(false, |ls| ls.iter().any(wide_wrap)))
         {
-            self.out_of_scope = Some(format!("{at}: double-width character in a wrapping line"));
-            r.inconclusive = true;
-            return;
+            self.wide_wrap = true;
         }
         let logs: Vec<Vec<String>> = self
             .items
